@@ -7,15 +7,20 @@
 (*                                                                         *)
 (* The environment's eight identifier spellings are inserted into the rule *)
 (* list sorted by decreasing length (stable), after the rules for strings, *)
-(* numbers, `..`, `&&`, `||` and before the punctuation and name rules.    *)
-(* That order is what makes prefix-related spellings ("%" and "%%") safe;  *)
-(* with Order = "shortest-first" TLC finds the shadowing counterexample.   *)
+(* regular expressions, slices, functions, numbers, `..`, `&&`, `||` and   *)
+(* before the punctuation, keyword and name rules.  That order is what     *)
+(* makes prefix-related spellings ("%" and "%%") safe; with                *)
+(* Order = "shortest-first" TLC finds the shadowing counterexample.        *)
 (*                                                                         *)
-(* Modelled rules (the ones query texts without regex literals and slice   *)
-(* lists can reach): quoted strings, function names, dot properties,       *)
-(* floats, integers, DDOT, AND, OR, identifier tokens, WILD, FILTER,       *)
+(* The rule list is the implementation's, complete: quoted strings,        *)
+(* /regex/flags literals, slices (three tokens), function names, dot       *)
+(* properties, floats, integers (with exponent; a negative exponent makes  *)
+(* a FLOAT token), DDOT, AND / OR (symbols and words), the identifier      *)
+(* tokens, WILD, FILTER, the keywords (in, true, false, nil, null, none,   *)
+(* contains, undefined, missing - all three nothing-words give NIL),       *)
 (* brackets, comma, comparison operators, NOT, bare names, parentheses,    *)
-(* blank space, ILLEGAL.                                                   *)
+(* blank space and the lone dot (skipped), ILLEGAL.  Tokens carry the raw  *)
+(* text of their value group.                                              *)
 (***************************************************************************)
 EXTENDS Naturals, Integers, Sequences, FiniteSets, TLC, SequencesExt
 
@@ -25,39 +30,91 @@ IsAlpha_(c) == (c >= 65 /\ c <= 90) \/ IsLower(c) \/ c = 95
 KeyFirst(c) == IsAlpha_(c) \/ c >= 128
 KeyChar(c) == KeyFirst(c) \/ IsDig(c) \/ c = 45
 IsBlank(c) == c \in {32, 10, 9, 13}
+IsSpace(c) == c \in {32, 10, 9, 13, 11, 12}          \* the host's \s, on ASCII
+\* the host's \w: letters, digits, underscore; beyond ASCII every alphanumeric character - the universes' non-ASCII
+\* characters are letters or digits except those listed
+NonWordHigh == {128512, 167, 163, 8364, 162, 164, 172, 166}
+IsWord(c) == IsAlpha_(c) \/ IsDig(c) \/ (c >= 128 /\ c \notin NonWordHigh)
+\* \b after a word character at position e - 1: the next character is not a word character
+Boundary(t, e) == e > Len(t) \/ ~IsWord(t[e])
 
 \* position after the longest run of characters of a class starting at p (one operator per class:
 \* recursive operators cannot take operator arguments)
-RECURSIVE DigitsEnd(_, _), KeyEnd(_, _), BlankEnd(_, _), FnEnd(_, _), StrEnd(_, _, _)
+RECURSIVE DigitsEnd(_, _), KeyEnd(_, _), BlankEnd(_, _), SpaceEnd(_, _), FnEnd(_, _), StrEnd(_, _, _), ReEnd(_, _), FlagsEnd(_, _)
 DigitsEnd(t, p) == IF p <= Len(t) /\ IsDig(t[p]) THEN DigitsEnd(t, p + 1) ELSE p
 KeyEnd(t, p) == IF p <= Len(t) /\ KeyChar(t[p]) THEN KeyEnd(t, p + 1) ELSE p
 BlankEnd(t, p) == IF p <= Len(t) /\ IsBlank(t[p]) THEN BlankEnd(t, p + 1) ELSE p
+SpaceEnd(t, p) == IF p <= Len(t) /\ IsSpace(t[p]) THEN SpaceEnd(t, p + 1) ELSE p
 FnEnd(t, p) == IF p <= Len(t) /\ (IsLower(t[p]) \/ IsDig(t[p]) \/ t[p] = 95) THEN FnEnd(t, p + 1) ELSE p
+FlagsEnd(t, p) == IF p <= Len(t) /\ t[p] \in {97, 105, 109, 115} THEN FlagsEnd(t, p + 1) ELSE p
 \* end of a quoted string body: position of the closing quote, 0 if unterminated
 StrEnd(t, p, q) == IF p > Len(t) THEN 0
                    ELSE IF t[p] = q THEN p
                    ELSE IF t[p] = 92 THEN (IF p + 1 > Len(t) THEN 0 ELSE StrEnd(t, p + 2, q))
                    ELSE StrEnd(t, p + 1, q)
+\* end of a regular-expression body: position of the closing slash, 0 if there is none
+ReEnd(t, p) == IF p > Len(t) THEN 0
+               ELSE IF t[p] = 47 THEN p
+               ELSE IF t[p] = 92 THEN (IF p + 1 > Len(t) THEN 0 ELSE ReEnd(t, p + 2))
+               ELSE ReEnd(t, p + 1)
 
 HasAt(t, p, lit) == p + Len(lit) - 1 <= Len(t) /\ SubSeq(t, p, p + Len(lit) - 1) = lit
+SignEnd(t, p) == IF p <= Len(t) /\ t[p] = 45 THEN p + 1 ELSE p
+\* [eE][+-]?\d+ at p: position after it, or p when there is no complete exponent
+ExpEnd(t, p) == IF p <= Len(t) /\ t[p] \in {101, 69}
+                THEN LET s == IF p + 1 <= Len(t) /\ t[p + 1] \in {43, 45} THEN p + 2 ELSE p + 1 IN
+                     IF s <= Len(t) /\ IsDig(t[s]) THEN DigitsEnd(t, s) ELSE p
+                ELSE p
+\* -?\d+([eE][+-]?\d+)?\b : with the exponent if that ends at a word boundary, else without it, else no match
+IntEnd(t, p) == LET s == SignEnd(t, p) IN
+                IF ~(s <= Len(t) /\ IsDig(t[s])) THEN 0
+                ELSE LET d == DigitsEnd(t, s)  e == ExpEnd(t, d) IN
+                     IF e > d /\ Boundary(t, e) THEN e ELSE IF Boundary(t, d) THEN d ELSE 0
+\* -?\d+\.\d*([eE][+-]?\d+)?
+FloatEnd(t, p) == LET s == SignEnd(t, p) IN
+                  IF ~(s <= Len(t) /\ IsDig(t[s])) THEN 0
+                  ELSE LET d == DigitsEnd(t, s) IN
+                       IF d <= Len(t) /\ t[d] = 46 THEN ExpEnd(t, DigitsEnd(t, d + 1)) ELSE 0
+\* (-?\d*)\s*:\s*(-?\d*)\s*(:\s*(-?\d*))? - the positions of its parts, or ok = FALSE
+SliceParts(t, p) ==
+  LET a1 == DigitsEnd(t, SignEnd(t, p))          \* end of start
+      c1 == SpaceEnd(t, a1) IN                   \* the first colon
+  IF ~(c1 <= Len(t) /\ t[c1] = 58) THEN [ok |-> FALSE]
+  ELSE LET b0 == SpaceEnd(t, c1 + 1)
+           b1 == DigitsEnd(t, SignEnd(t, b0))    \* end of stop
+           c2 == SpaceEnd(t, b1) IN
+       IF c2 <= Len(t) /\ t[c2] = 58
+       THEN LET s0 == SpaceEnd(t, c2 + 1)  s1 == DigitsEnd(t, SignEnd(t, s0)) IN
+            [ok |-> TRUE, start |-> SubSeq(t, p, a1 - 1), stop |-> SubSeq(t, b0, b1 - 1), step |-> SubSeq(t, s0, s1 - 1), end |-> s1]
+       ELSE [ok |-> TRUE, start |-> SubSeq(t, p, a1 - 1), stop |-> SubSeq(t, b0, b1 - 1), step |-> <<>>, end |-> c2]
+WordAt(t, p, w) == HasAt(t, p, w) /\ Boundary(t, p + Len(w))
+\* a keyword whose first letter may be a capital
+CapWordAt(t, p, w) == WordAt(t, p, w) \/ WordAt(t, p, <<w[1] - 32>> \o Tail(w))
 
-\* a rule is [kind, match] where match(t, p) is the position after the match, or 0
+\* a rule is [kind, k, text]; Match gives the position after the match, or 0
 Match(rule, t, p, toks) ==
   CASE rule.k = "lit" -> IF HasAt(t, p, rule.text) THEN p + Len(rule.text) ELSE 0
+    [] rule.k = "word" -> IF WordAt(t, p, rule.text) THEN p + Len(rule.text) ELSE 0
+    [] rule.k = "capword" -> IF CapWordAt(t, p, rule.text) THEN p + Len(rule.text) ELSE 0
+    [] rule.k = "litorword" -> IF HasAt(t, p, rule.text) THEN p + Len(rule.text) ELSE IF WordAt(t, p, rule.word) THEN p + Len(rule.word) ELSE 0
     [] rule.k = "dq" -> IF t[p] = 34 /\ StrEnd(t, p + 1, 34) # 0 THEN StrEnd(t, p + 1, 34) + 1 ELSE 0
     [] rule.k = "sq" -> IF t[p] = 39 /\ StrEnd(t, p + 1, 39) # 0 THEN StrEnd(t, p + 1, 39) + 1 ELSE 0
+    [] rule.k = "regex" -> IF t[p] = 47 /\ ReEnd(t, p + 1) > p + 1 THEN FlagsEnd(t, ReEnd(t, p + 1) + 1) ELSE 0
+    [] rule.k = "slice" -> IF SliceParts(t, p).ok THEN SliceParts(t, p).end ELSE 0
     [] rule.k = "func" -> IF IsLower(t[p]) /\ FnEnd(t, p + 1) > p + 1 /\ FnEnd(t, p + 1) <= Len(t) /\ t[FnEnd(t, p + 1)] = 40
-                          THEN BlankEnd(t, FnEnd(t, p + 1) + 1) ELSE 0
+                          THEN SpaceEnd(t, FnEnd(t, p + 1) + 1) ELSE 0
     [] rule.k = "dotprop" -> IF t[p] = 46 /\ p + 1 <= Len(t) /\ KeyFirst(t[p + 1]) THEN KeyEnd(t, p + 2) ELSE 0
-    [] rule.k = "int" -> LET s == IF t[p] = 45 THEN p + 1 ELSE p IN
-                         IF s <= Len(t) /\ IsDig(t[s]) /\ (DigitsEnd(t, s) > Len(t) \/ ~(IsAlpha_(t[DigitsEnd(t, s)]) \/ t[DigitsEnd(t, s)] = 46))
-                         THEN DigitsEnd(t, s) ELSE 0
+    [] rule.k = "float" -> FloatEnd(t, p)
+    [] rule.k = "int" -> IntEnd(t, p)
     [] rule.k = "key" -> IF KeyFirst(t[p]) THEN KeyEnd(t, p + 1) ELSE 0
     [] rule.k = "skip" -> IF IsBlank(t[p]) THEN BlankEnd(t, p) ELSE IF t[p] = 46 /\ ~(p + 1 <= Len(t) /\ t[p + 1] = 46) THEN p + 1 ELSE 0
     [] rule.k = "any" -> p + 1
 
-Lit(kind, text) == [kind |-> kind, k |-> "lit", text |-> text]
-R(kind, k) == [kind |-> kind, k |-> k, text |-> <<>>]
+Lit(kind, text) == [kind |-> kind, k |-> "lit", text |-> text, word |-> <<>>]
+Word(kind, text) == [kind |-> kind, k |-> "word", text |-> text, word |-> <<>>]
+CapWord(kind, text) == [kind |-> kind, k |-> "capword", text |-> text, word |-> <<>>]
+LitOrWord(kind, text, word) == [kind |-> kind, k |-> "litorword", text |-> text, word |-> word]
+R(kind, k) == [kind |-> kind, k |-> k, text |-> <<>>, word |-> <<>>]
 
 \* insertion sort of the identifier rules by length: decreasing (the implementation) or increasing (the wrong design)
 RECURSIVE InsertBy(_, _, _), SortBy(_, _)
@@ -70,24 +127,48 @@ SortBy(s, desc) == IF s = <<>> THEN <<>> ELSE InsertBy(Last(s), SortBy(Front(s),
 IdentRules(tok) == << Lit("ROOT", tok.root), Lit("FAKE_ROOT", tok.fake), Lit("SELF", tok.self), Lit("KEY", tok.key),
                       Lit("UNION", tok.union), Lit("INTERSECT", tok.inter), Lit("FILTER_CONTEXT", tok.ctx), Lit("KEYS", tok.keys) >>
 
-Rules(tok, order) ==
-  << R("DOUBLE_QUOTE_STRING", "dq"), R("SINGLE_QUOTE_STRING", "sq"), R("FUNCTION", "func"), R("PROP", "dotprop"), R("INT", "int"),
-     Lit("DDOT", <<46, 46>>), Lit("AND", <<38, 38>>), Lit("OR", <<124, 124>>) >>
-  \o (IF order = "as-given" THEN IdentRules(tok) ELSE SortBy(IdentRules(tok), order = "longest-first"))
-  \o << Lit("WILD", <<42>>), Lit("FILTER", <<63>>), Lit("LBRACKET", <<91>>), Lit("RBRACKET", <<93>>), Lit("COMMA", <<44>>),
-        Lit("EQ", <<61, 61>>), Lit("NE", <<33, 61>>), Lit("LG", <<60, 62>>), Lit("LE", <<60, 61>>), Lit("GE", <<62, 61>>), Lit("RE", <<61, 126>>),
-        Lit("LT", <<60>>), Lit("GT", <<62>>), Lit("NOT", <<33>>), R("BARE_PROPERTY", "key"), Lit("LPAREN", <<40>>), Lit("RPAREN", <<41>>),
-        R("SKIP", "skip"), R("ILLEGAL", "any") >>
+W_and == <<97, 110, 100>>  W_or == <<111, 114>>  W_not == <<110, 111, 116>>  W_in == <<105, 110>>
+W_true == <<116, 114, 117, 101>>  W_false == <<102, 97, 108, 115, 101>>  W_nil == <<110, 105, 108>>  W_null == <<110, 117, 108, 108>>  W_none == <<110, 111, 110, 101>>
+W_contains == <<99, 111, 110, 116, 97, 105, 110, 115>>  W_undefined == <<117, 110, 100, 101, 102, 105, 110, 101, 100>>  W_missing == <<109, 105, 115, 115, 105, 110, 103>>
 
-\* the first rule that matches at p
-FirstRule(rules, t, p) == CHOOSE i \in 1..Len(rules) : Match(rules[i], t, p, <<>>) # 0 /\ \A j \in 1..(i - 1) : Match(rules[j], t, p, <<>>) = 0
+Rules(tok, order) ==
+  << R("DOUBLE_QUOTE_STRING", "dq"), R("SINGLE_QUOTE_STRING", "sq"), R("RE_PATTERN", "regex"), R("LSLICE", "slice"), R("FUNCTION", "func"),
+     R("PROP", "dotprop"), R("FLOAT", "float"), R("INT", "int"),
+     Lit("DDOT", <<46, 46>>), LitOrWord("AND", <<38, 38>>, W_and), LitOrWord("OR", <<124, 124>>, W_or) >>
+  \o (IF order = "as-given" THEN IdentRules(tok) ELSE SortBy(SelectSeq(IdentRules(tok), LAMBDA r : r.text # <<>>), order = "longest-first"))
+  \o << Lit("WILD", <<42>>), Lit("FILTER", <<63>>), Word("IN", W_in), CapWord("TRUE", W_true), CapWord("FALSE", W_false), CapWord("NIL", W_nil),
+        CapWord("NIL", W_null), CapWord("NIL", W_none), Word("CONTAINS", W_contains), Word("UNDEFINED", W_undefined), Word("MISSING", W_missing),
+        Lit("LBRACKET", <<91>>), Lit("RBRACKET", <<93>>), Lit("COMMA", <<44>>),
+        Lit("EQ", <<61, 61>>), Lit("NE", <<33, 61>>), Lit("LG", <<60, 62>>), Lit("LE", <<60, 61>>), Lit("GE", <<62, 61>>), Lit("RE", <<61, 126>>),
+        Lit("LT", <<60>>), Lit("GT", <<62>>), LitOrWord("NOT", <<33>>, W_not), R("BARE_PROPERTY", "key"), Lit("LPAREN", <<40>>), Lit("RPAREN", <<41>>),
+        R("SKIP", "skip"), R("ILLEGAL", "any") >>
+\* (the NOT rule is `not\b` or `!` - the word first; both orders give the same match since neither is a prefix of the other)
+
+\* the first rule that matches at p (the last rule matches any character)
+RECURSIVE FirstFrom(_, _, _, _)
+FirstFrom(rules, t, p, i) == IF Match(rules[i], t, p, <<>>) # 0 THEN i ELSE FirstFrom(rules, t, p, i + 1)
+FirstRule(rules, t, p) == FirstFrom(rules, t, p, 1)
+
+T(kind, v) == [k |-> kind, v |-> v]
+\* the tokens a rule emits for its match of t[p .. e - 1]
+Emit(rule, t, p, e) ==
+  CASE rule.kind \in {"DOUBLE_QUOTE_STRING", "SINGLE_QUOTE_STRING"} -> <<T(rule.kind, SubSeq(t, p + 1, e - 2))>>
+    [] rule.kind = "RE_PATTERN" -> LET c == ReEnd(t, p + 1) IN <<T("RE_PATTERN", SubSeq(t, p + 1, c - 1)), T("RE_FLAGS", SubSeq(t, c + 1, e - 1))>>
+    [] rule.kind = "LSLICE" -> LET s == SliceParts(t, p) IN <<T("SLICE_START", s.start), T("SLICE_STOP", s.stop), T("SLICE_STEP", s.step)>>
+    [] rule.kind = "FUNCTION" -> <<T("FUNCTION", SubSeq(t, p, FnEnd(t, p + 1) - 1))>>
+    [] rule.kind = "PROP" -> <<T("PROP", SubSeq(t, p + 1, e - 1))>>
+    [] rule.kind = "INT" -> LET d == DigitsEnd(t, SignEnd(t, p)) IN      \* an exponent with a minus sign makes it a FLOAT token
+                            <<T(IF e > d + 1 /\ t[d + 1] = 45 THEN "FLOAT" ELSE "INT", SubSeq(t, p, e - 1))>>
+    [] rule.kind = "SKIP" -> <<>>
+    [] OTHER -> <<T(rule.kind, SubSeq(t, p, e - 1))>>
 
 RECURSIVE Tokenize(_, _, _)
-\* kinds of the tokens of t from position p on (SKIP produces no token; ILLEGAL ends the scan)
+\* the tokens of t from position p on (ILLEGAL ends the scan, as a token of that kind)
 Tokenize(rules, t, p) ==
   IF p > Len(t) THEN <<>>
   ELSE LET i == FirstRule(rules, t, p) IN
-       IF rules[i].kind = "ILLEGAL" THEN <<"ILLEGAL">>
-       ELSE (IF rules[i].kind = "SKIP" THEN <<>> ELSE <<rules[i].kind>>) \o Tokenize(rules, t, Match(rules[i], t, p, <<>>))
-Kinds(text, tok, order) == Tokenize(Rules(tok, order), text, 1)
+       IF rules[i].kind = "ILLEGAL" THEN <<T("ILLEGAL", <<>>)>>
+       ELSE Emit(rules[i], t, p, Match(rules[i], t, p, <<>>)) \o Tokenize(rules, t, Match(rules[i], t, p, <<>>))
+Tokens(text, tok, order) == Tokenize(Rules(tok, order), text, 1)
+Kinds(text, tok, order) == LET ts == Tokens(text, tok, order) IN [i \in 1..Len(ts) |-> ts[i].k]
 =============================================================================
